@@ -19,7 +19,8 @@
    check_posdiag_case: the stored q / r blocks or NaN; check_svd_dense_case: U / VH _qdata and blocks, S, block sizes of
    VH.legs[0]).  Model/FactorDense2.v (eig_A / eig_V, pairs_L / pairs_R) is proof vocabulary built on these definitions. *)
 From TenpyV Require Import Base.Prelude Model.ChargeL Model.Leg Model.Factor Proofs.LegP Proofs.FactorP
-  Model.Factor2 Model.FactorDense Model.FactorDense2 Proofs.FactorP2 Proofs.FactorDenseP Proofs.FactorDenseP2.
+  Model.Factor2 Model.FactorDense Model.FactorDense2 Proofs.FactorP2 Proofs.FactorDenseP Proofs.FactorDenseP2
+  Model.FactorDense3 Proofs.FactorDenseP3.
 Open Scope Z_scope.
 
 (* svd (reduced): for every completely blocked rank-2 charge structure (mat_wf: stored blocks obey the charge rule),
@@ -292,6 +293,103 @@ Proof. vm_compute. reflexivity. Qed.
 Example T05_qr_pos_diag_nan : pos_diag 2 2 (of_rows [[1; 0]; [0; 1]]) (of_rows [[-2; 1]; [0; 0]]) = None.
 Proof. vm_compute. reflexivity. Qed.
 
+(* qr / lq, "Q is an isometry", reduced mode: the k-th stored block gives the Q-block (i_k, x_k) = Q_k with x_k = map_qind[i_k] its
+   block of the projected inner leg (sizes ns).  If the row blocks i_k are pairwise distinct (complete blocking: one stored block
+   per row sector), the inner blocks x_k are pairwise distinct and cover the inner leg (every block of the projected leg comes from a
+   stored block - how the leg is built), and every Q_k has orthonormal columns (LAPACK's specification), then the assembled dense Q
+   satisfies Q^T Q = 1 on the inner leg, for any number of sectors and any sizes *)
+Theorem T05_qr_isometry_assembled : forall rs ns ps,
+  NoDup (map p_i ps) -> NoDup (map p_x ps) ->
+  (forall x, (x < length ns)%nat -> (0 < bsize ns x)%nat -> In x (map p_x ps)) ->
+  (forall p, In p ps -> forall a b, (a < bsize ns (p_x p))%nat -> (b < bsize ns (p_x p))%nat ->
+     sumn (bsize rs (p_i p)) (fun r => p_A p r a * p_A p r b) = delta a b) ->
+  forall t t', (t < list_sum ns)%nat -> (t' < list_sum ns)%nat ->
+  sumn (list_sum rs) (fun r => dense rs ns (pairs_L ps) r t * dense rs ns (pairs_L ps) r t') = delta t t'.
+Proof. exact qr_isometry_assembled. Qed.
+
+(* mode='complete': inner leg = legs[0] (x_k = i_k), Q = the square blocks Q_k of the stored blocks followed by an identity block
+   (q, q) for every row sector q without stored block (qr_complete_Q, correspondence-checked: check_qr_fill_case).  With one stored
+   block per row sector and orthonormal columns in every Q_k the assembled Q satisfies Q^T Q = 1 on the whole leg - the fill-in
+   makes the coverage hypothesis of the reduced statement true by construction *)
+Theorem T05_qr_complete_isometry : forall rs ps,
+  (forall p, In p ps -> p_x p = p_i p) -> NoDup (map p_i ps) ->
+  (forall p, In p ps -> forall a b, (a < bsize rs (p_i p))%nat -> (b < bsize rs (p_i p))%nat ->
+     sumn (bsize rs (p_i p)) (fun r => p_A p r a * p_A p r b) = delta a b) ->
+  forall t t', (t < list_sum rs)%nat -> (t' < list_sum rs)%nat ->
+  sumn (list_sum rs) (fun r => dense rs rs (qr_complete_Q rs ps) r t * dense rs rs (qr_complete_Q rs ps) r t') = delta t t'.
+Proof. exact qr_complete_isometry. Qed.
+
+(* non-vacuity: row sectors of sizes 2, 1, only the first stored; reduced: inner leg [1], Q_0 = (1, 0)^T; complete: Q_0 = a 2x2
+   permutation, identity fill-in for sector 1, and the Gram matrix of the assembled Q evaluated *)
+Definition ex_qiso : list mpair := [mkPair 0 0 1 (of_rows [[1]; [0]]) (of_rows [[1; 2]])].
+Example T05_qr_isometry_example :
+  NoDup (map p_i ex_qiso) /\ NoDup (map p_x ex_qiso) /\
+  (forall x, (x < length [1%nat])%nat -> (0 < bsize [1%nat] x)%nat -> In x (map p_x ex_qiso)) /\
+  (forall p, In p ex_qiso -> forall a b, (a < bsize [1%nat] (p_x p))%nat -> (b < bsize [1%nat] (p_x p))%nat ->
+     sumn (bsize [2; 1]%nat (p_i p)) (fun r => p_A p r a * p_A p r b) = delta a b).
+Proof.
+  split; [repeat constructor; cbn; tauto|]. split; [repeat constructor; cbn; tauto|]. split.
+  - intros x Hx _. cbn in Hx. assert (x = 0%nat) by lia. subst. left. reflexivity.
+  - intros p [<-|[]] a b Ha Hb. cbn in Ha, Hb. assert (a = 0%nat) by lia. assert (b = 0%nat) by lia. subst. reflexivity.
+Qed.
+Definition ex_qcomp : list mpair := [mkPair 0 0 1 (of_rows [[0; 1]; [1; 0]]) (of_rows [[1; 2]; [0; 3]])].
+Example T05_qr_complete_example :
+  (forall p, In p ex_qcomp -> p_x p = p_i p) /\ NoDup (map p_i ex_qcomp) /\
+  (forall p, In p ex_qcomp -> forall a b, (a < bsize [2; 1]%nat (p_i p))%nat -> (b < bsize [2; 1]%nat (p_i p))%nat ->
+     sumn (bsize [2; 1]%nat (p_i p)) (fun r => p_A p r a * p_A p r b) = delta a b) /\
+  map (fun e : bent => (fst (fst e), snd (fst e))) (qr_complete_Q [2; 1]%nat ex_qcomp) = [(0, 0); (1, 1)]%nat /\
+  tab 3 3 (gram 3 (dense [2; 1]%nat [2; 1]%nat (qr_complete_Q [2; 1]%nat ex_qcomp))) = [[1; 0; 0]; [0; 1; 0]; [0; 0; 1]].
+Proof.
+  split; [intros p [<-|[]]; reflexivity|]. split; [repeat constructor; cbn; tauto|]. split.
+  - intros p [<-|[]] a b Ha Hb. cbn in Ha, Hb. destruct a as [|[|a]], b as [|[|b]]; try lia; reflexivity.
+  - split; vm_compute; reflexivity.
+Qed.
+
+(* svd(full_matrices=True), the positive counterpart of T05_svd_full_refuted: U._qdata = [qi_L, qi_L], VH._qdata = [qi_R, qi_R]
+   (svd_U_full, svd_V_full; correspondence-checked).  If every row sector and every column sector of non-zero size has a stored
+   block, one block per sector (complete blocking; this is the situation of a matrix with qtotal = 0 - or any fixed qtotal - whose
+   sectors are all stored), and every U_b, VH_b is unitary (square, orthonormal columns and rows: LAPACK's specification), then
+   U^T U = U U^T = 1 and VH VH^T = VH^T VH = 1 on the full legs, for any number of sectors.  (The charge rule of these factors for
+   qtotal_L / qtotal_R <> 0 is finding F05.2 and is not part of this statement.) *)
+Theorem T05_svd_full_unitary : forall rs cs fs,
+  NoDup (map sb_row fs) -> NoDup (map sb_col fs) ->
+  (forall q, (q < length rs)%nat -> (0 < bsize rs q)%nat -> In q (map sb_row fs)) ->
+  (forall q, (q < length cs)%nat -> (0 < bsize cs q)%nat -> In q (map sb_col fs)) ->
+  (forall e, In e fs -> forall a b, (a < bsize rs (sb_row e))%nat -> (b < bsize rs (sb_row e))%nat ->
+     sumn (bsize rs (sb_row e)) (fun x => f_U (sb_fac e) x a * f_U (sb_fac e) x b) = delta a b /\
+     sumn (bsize rs (sb_row e)) (fun x => f_U (sb_fac e) a x * f_U (sb_fac e) b x) = delta a b) ->
+  (forall e, In e fs -> forall a b, (a < bsize cs (sb_col e))%nat -> (b < bsize cs (sb_col e))%nat ->
+     sumn (bsize cs (sb_col e)) (fun y => f_V (sb_fac e) a y * f_V (sb_fac e) b y) = delta a b /\
+     sumn (bsize cs (sb_col e)) (fun y => f_V (sb_fac e) y a * f_V (sb_fac e) y b) = delta a b) ->
+  let U := dense rs rs (svd_U_full fs) in
+  let V := dense cs cs (svd_V_full fs) in
+  (forall t t', (t < list_sum rs)%nat -> (t' < list_sum rs)%nat ->
+     sumn (list_sum rs) (fun r => U r t * U r t') = delta t t' /\ sumn (list_sum rs) (fun c => U t c * U t' c) = delta t t') /\
+  (forall t t', (t < list_sum cs)%nat -> (t' < list_sum cs)%nat ->
+     sumn (list_sum cs) (fun c => V t c * V t' c) = delta t t' /\ sumn (list_sum cs) (fun r => V r t * V r t') = delta t t').
+Proof. exact svd_full_unitary. Qed.
+
+(* non-vacuity: row sectors 2, 1, column sectors 1, 2, blocks (0, 1) (2x2) and (1, 0) (1x1), both stored *)
+Definition ex_full : list sblock :=
+  [(0%nat, 1%nat, mkFac3 2 (of_rows [[0; 1]; [1; 0]]) (of_list [3; 2]) (of_rows [[0; -1]; [1; 0]]));
+   (1%nat, 0%nat, mkFac3 1 (of_rows [[-1]]) (of_list [5]) (of_rows [[1]]))].
+Example T05_svd_full_example :
+  NoDup (map sb_row ex_full) /\ NoDup (map sb_col ex_full) /\
+  (forall q, (q < length [2; 1]%nat)%nat -> (0 < bsize [2; 1]%nat q)%nat -> In q (map sb_row ex_full)) /\
+  (forall q, (q < length [1; 2]%nat)%nat -> (0 < bsize [1; 2]%nat q)%nat -> In q (map sb_col ex_full)) /\
+  (forall e, In e ex_full -> forall a b, (a < bsize [2; 1]%nat (sb_row e))%nat -> (b < bsize [2; 1]%nat (sb_row e))%nat ->
+     sumn (bsize [2; 1]%nat (sb_row e)) (fun x => f_U (sb_fac e) x a * f_U (sb_fac e) x b) = delta a b /\
+     sumn (bsize [2; 1]%nat (sb_row e)) (fun x => f_U (sb_fac e) a x * f_U (sb_fac e) b x) = delta a b) /\
+  (forall e, In e ex_full -> forall a b, (a < bsize [1; 2]%nat (sb_col e))%nat -> (b < bsize [1; 2]%nat (sb_col e))%nat ->
+     sumn (bsize [1; 2]%nat (sb_col e)) (fun y => f_V (sb_fac e) a y * f_V (sb_fac e) b y) = delta a b /\
+     sumn (bsize [1; 2]%nat (sb_col e)) (fun y => f_V (sb_fac e) y a * f_V (sb_fac e) y b) = delta a b).
+Proof.
+  split; [repeat constructor; cbn; intuition lia|]. split; [repeat constructor; cbn; intuition lia|].
+  split; [intros q Hq _; cbn in Hq; destruct q as [|[|q]]; [right; left; reflexivity|left; reflexivity|lia]|].
+  split; [intros q Hq _; cbn in Hq; destruct q as [|[|q]]; [left; reflexivity|right; left; reflexivity|lia]|].
+  split; intros e [<-|[<-|[]]] a b Ha Hb; cbn in Ha, Hb; destruct a as [|[|a]], b as [|[|b]]; try lia; split; reflexivity.
+Qed.
+
 Print Assumptions T05_svd_charges.
 Print Assumptions T05_svd_request.
 Print Assumptions T05_qr_charges.
@@ -307,3 +405,6 @@ Print Assumptions T05_qr_pos_diag.
 Print Assumptions T05_eig_pairs.
 Print Assumptions T05_matched_product.
 Print Assumptions T05_qr_block_reconstruct.
+Print Assumptions T05_qr_isometry_assembled.
+Print Assumptions T05_qr_complete_isometry.
+Print Assumptions T05_svd_full_unitary.
